@@ -28,7 +28,7 @@ const W_READY: [u16; NKINDS] = [6, 4, 26, 3, 2, 3, 2, 2, 18, 2, 1, 1, 1, 2, 1, 1
 const W_READS: [u16; NKINDS] = [8, 5, 28, 3, 5, 4, 5, 3, 10, 2, 16, 1, 2, 1, 1, 0, 26, 6, 5, 2, 4, 1, 0, 0, 8, 2, 14, 0, 0];
 const W_MEMBERSHIP: [u16; NKINDS] = [6, 5, 26, 3, 2, 6, 2, 2, 10, 14, 0, 2, 2, 2, 1, 1, 26, 6, 8, 3, 5, 2, 0, 1, 6, 0, 12, 0, 4];
 const W_FLOW: [u16; NKINDS] = [6, 3, 30, 5, 5, 3, 2, 2, 24, 1, 0, 1, 1, 3, 3, 1, 28, 6, 5, 1, 3, 2, 8, 1, 8, 2, 12, 0, 1];
-const W_SNAPSHOT: [u16; NKINDS] = [6, 4, 26, 4, 4, 5, 4, 3, 16, 3, 0, 1, 1, 6, 2, 4, 26, 6, 6, 3, 5, 10, 1, 3, 6, 0, 12, 0, 0];
+const W_SNAPSHOT: [u16; NKINDS] = [6, 4, 26, 4, 5, 5, 4, 3, 18, 3, 0, 1, 1, 6, 2, 4, 26, 6, 6, 2, 5, 12, 1, 3, 6, 0, 12, 0, 0];
 const W_PREVOTE: [u16; NKINDS] = [10, 12, 22, 3, 5, 3, 5, 3, 8, 2, 0, 1, 3, 1, 1, 0, 26, 6, 4, 4, 6, 4, 0, 0, 16, 0, 12, 0, 0];
 const W_TRANSFER: [u16; NKINDS] = [8, 4, 28, 4, 3, 5, 2, 2, 14, 4, 0, 12, 1, 1, 1, 0, 26, 6, 5, 2, 4, 1, 1, 0, 8, 0, 14, 0, 0];
 const W_CHAOS: [u16; NKINDS] = [8, 6, 26, 4, 4, 5, 3, 2, 14, 5, 2, 2, 2, 3, 2, 2, 26, 8, 7, 3, 6, 3, 3, 1, 6, 1, 14, 2, 2];
@@ -41,7 +41,7 @@ fn base(name: &'static str, weights: [u16; NKINDS]) -> Profile {
         force_check_quorum: None,
         force_lease_read: Some(false),
         async_p: 96,
-        warm_p: 128,
+        warm_p: 176,
         swarm: true,
         weird_ids: true,
         tight_flow: false,
@@ -71,7 +71,7 @@ pub fn spec_for(id: &str) -> Option<Spec> {
             },
             quick_cases: 24000,
             thorough_cases: 1_600_000,
-            ops_quick: (40, 200),
+            ops_quick: (60, 260),
             ops_thorough: (60, 500),
             repro_options: None,
         },
@@ -84,7 +84,7 @@ pub fn spec_for(id: &str) -> Option<Spec> {
             nontrivial: |_s, f| has(f, F_TWO_LEADERS) && has(f, F_VOTE_UNSYNCED_CRASH | F_VOTE_DUP_OR_LATE | F_CONF_APPLIED),
             quick_cases: 24000,
             thorough_cases: 1_600_000,
-            ops_quick: (40, 200),
+            ops_quick: (60, 260),
             ops_thorough: (60, 500),
             repro_options: None,
         },
@@ -97,7 +97,7 @@ pub fn spec_for(id: &str) -> Option<Spec> {
             nontrivial: |_s, f| has(f, F_LEADER_WITH_DIVERGENT_PEER | F_VOTE_DECIDED_VS_BETTER_LOG),
             quick_cases: 24000,
             thorough_cases: 1_600_000,
-            ops_quick: (40, 200),
+            ops_quick: (60, 260),
             ops_thorough: (60, 500),
             repro_options: None,
         },
@@ -113,7 +113,7 @@ pub fn spec_for(id: &str) -> Option<Spec> {
                 nontrivial: |_s, f| has(f, F_COMMIT_LEADER_DISK_BEHIND | F_COMMIT_VOTER_VOLATILE_ONLY | F_COMMIT_JOINT),
                 quick_cases: 24000,
                 thorough_cases: 1_600_000,
-                ops_quick: (40, 200),
+                ops_quick: (60, 260),
                 ops_thorough: (60, 500),
                 repro_options: None,
             }
@@ -127,7 +127,7 @@ pub fn spec_for(id: &str) -> Option<Spec> {
             nontrivial: |_s, f| has(f, F_TRUNCATION | F_LEADER_CRASH_UNPERSISTED_SENT | F_SPLIT_APPEND),
             quick_cases: 24000,
             thorough_cases: 1_600_000,
-            ops_quick: (40, 200),
+            ops_quick: (60, 260),
             ops_thorough: (60, 500),
             repro_options: None,
         },
@@ -143,7 +143,7 @@ pub fn spec_for(id: &str) -> Option<Spec> {
                 nontrivial: |_s, f| has(f, F_PROMISE_PENDING_LOST | F_RELEASE_WHILE_DISK_LAGS),
                 quick_cases: 24000,
                 thorough_cases: 1_600_000,
-                ops_quick: (40, 200),
+                ops_quick: (60, 260),
                 ops_thorough: (60, 500),
                 repro_options: None,
             }
@@ -164,7 +164,7 @@ pub fn spec_for(id: &str) -> Option<Spec> {
                 },
                 quick_cases: 20000,
                 thorough_cases: 1_200_000,
-                ops_quick: (40, 200),
+                ops_quick: (60, 260),
                 ops_thorough: (60, 500),
                 repro_options: None,
             }
@@ -182,7 +182,7 @@ pub fn spec_for(id: &str) -> Option<Spec> {
                 nontrivial: |_s, f| has(f, F_READ_ANSWERED_NONTRIVIAL),
                 quick_cases: 24000,
                 thorough_cases: 1_600_000,
-                ops_quick: (40, 200),
+                ops_quick: (60, 260),
                 ops_thorough: (60, 500),
                 repro_options: None,
             }
@@ -196,7 +196,7 @@ pub fn spec_for(id: &str) -> Option<Spec> {
             nontrivial: |_s, f| (has(f, F_CONF_WHILE_PENDING) && has(f, F_CONF_APPLIED_TWO_NODES)) || has(f, F_JOINT_RESTORED),
             quick_cases: 24000,
             thorough_cases: 1_600_000,
-            ops_quick: (40, 200),
+            ops_quick: (60, 260),
             ops_thorough: (60, 500),
             repro_options: None,
         },
@@ -214,7 +214,7 @@ pub fn spec_for(id: &str) -> Option<Spec> {
                 nontrivial: |_s, f| has(f, F_WINDOW_FULL | F_CAP_CHANGE_NONEMPTY | F_REJECT_MOVED_NEXT | F_SPLIT_APPEND | F_REFUSED_FOR_SIZE),
                 quick_cases: 24000,
                 thorough_cases: 1_600_000,
-                ops_quick: (40, 200),
+                ops_quick: (60, 260),
                 ops_thorough: (60, 500),
                 repro_options: None,
             }
@@ -231,7 +231,7 @@ pub fn spec_for(id: &str) -> Option<Spec> {
                 nontrivial: |_s, f| has(f, F_SNAP_THEN_APPEND) || (has(f, F_SNAP_IGNORED_OR_FF) && has(f, F_SNAP_INSTALLED)),
                 quick_cases: 24000,
                 thorough_cases: 1_600_000,
-                ops_quick: (40, 200),
+                ops_quick: (60, 260),
                 ops_thorough: (60, 500),
                 repro_options: None,
             }
@@ -249,7 +249,7 @@ pub fn spec_for(id: &str) -> Option<Spec> {
                 nontrivial: |_s, f| has(f, F_PREVOTE_NONTRIVIAL),
                 quick_cases: 24000,
                 thorough_cases: 1_600_000,
-                ops_quick: (40, 200),
+                ops_quick: (60, 260),
                 ops_thorough: (60, 500),
                 repro_options: None,
             }
@@ -267,7 +267,7 @@ pub fn spec_for(id: &str) -> Option<Spec> {
                 nontrivial: |_s, f| has(f, F_TRANSFER_NONTRIVIAL),
                 quick_cases: 24000,
                 thorough_cases: 1_600_000,
-                ops_quick: (40, 200),
+                ops_quick: (60, 260),
                 ops_thorough: (60, 500),
                 repro_options: None,
             }
@@ -285,7 +285,7 @@ pub fn spec_for(id: &str) -> Option<Spec> {
                 nontrivial: |_s, f| has(f, F_CRASH_OR_CONF_AND_30),
                 quick_cases: 24000,
                 thorough_cases: 1_600_000,
-                ops_quick: (40, 200),
+                ops_quick: (60, 260),
                 ops_thorough: (60, 500),
                 repro_options: Some(crate::world::NO_F3_EXCLUSION),
             }
